@@ -396,7 +396,6 @@ def execute(scn):
     for a in range(na):
       act[w, a] = sg * ACT[(w // 3 + a) % 3] * (1.0 + 0.01 * a)
 
-  d = mjw.make_data(mjm, nworld=NWORLD)
   nontrivial = False
   base_flags = int(mjm.opt.disableflags)
   for clamp_off in (0, 1):
@@ -422,7 +421,7 @@ def execute(scn):
     if not good.any():
       continue
     # ---- MJWarp
-    mjw.reset_data(m, d)
+    d = mjw.make_data(mjm, nworld=NWORLD)  # (reset_data re-builds a kernel on every call: ~20 ms)
     util.set_field(d.qpos, qpos)
     util.set_field(d.qvel, qvel)
     util.set_field(d.ctrl, ctrl)
@@ -441,7 +440,12 @@ def execute(scn):
     mjw.step(m, d)
     got["act_next"] = d.act.numpy()
     g = good
-    tag = f":lim={lim}{':tenfrc*forcerange' if scn.get('fl') == 1 else ''}:clampoff={clamp_off}"
+    inter = ""
+    if scn.get("fl") == 1:
+      inter = ":tenfrc*forcerange"  # tendon total-force limit together with actuator force ranges
+    elif scn["fam"] == "dcmotor" and lim and scn["trn"].startswith("tendon") and ("lugre" in DCMOTORS[scn["dc"]] or "cogging" in DCMOTORS[scn["dc"]]):
+      inter = ":tenfrc*dcmotor_mech"  # ... together with the DC motor's mechanical (cogging / LuGre) forces
+    tag = f":lim={lim}{inter}:clampoff={clamp_off}"
     for u in range(nact):
       lab = labels[u]
       for f in ("actuator_length", "actuator_velocity", "actuator_force"):
